@@ -155,3 +155,43 @@ def accept_condition(j, P, s, ent, ob, prefix):
        {"rule": "%s verification can return true only when ||z|| < gamma1 - beta, and with exactly this threshold (so every ||z|| the signer emits is accepted)" % prefix,
         "entry": j["root"], "set": s, "path_condition_of_accept_partition": seen[:4], "expected_upper_bound": want})
     return bound
+
+
+def named_structs(job):
+    """{struct path: {field name: result node}} for every struct reachable in a job's result through Ok
+    variants / tuples, aligned with the driver's `ret_type` shape (robust to field reordering)"""
+    out = {}
+
+    def walk(shape, node):
+        if not isinstance(shape, dict) or node is None:
+            return
+        if "struct" in shape:
+            fs = shape["fields"]
+            if isinstance(node, list) and len(node) == len(fs):
+                d = out.setdefault(shape["struct"], {})
+                for (nm, sh), nd in zip(fs, node):
+                    d[nm] = nd
+                    walk(sh, nd)
+        elif "tuple" in shape:
+            if isinstance(node, list) and len(node) == len(shape["tuple"]):
+                for sh, nd in zip(shape["tuple"], node):
+                    walk(sh, nd)
+        elif "enum" in shape:
+            if isinstance(node, dict) and "enum" in node:
+                for i, (vn, shs) in enumerate(shape["variants"]):
+                    nds = node["enum"].get("v%d" % i)
+                    if nds is not None:
+                        for sh, nd in zip(shs, nds):
+                            walk(sh, nd)
+
+    walk(job.get("ret_type"), job.get("result"))
+    return out
+
+
+def byte_fields(struct_fields):
+    """{name: (len, tag)} of the byte-array fields of a struct from named_structs"""
+    out = {}
+    for nm, nd in (struct_fields or {}).items():
+        if isinstance(nd, dict) and "arr_len" in nd and isinstance(nd.get("elems"), dict) and nd["elems"].get("int") == [0, 255]:
+            out[nm] = (nd["arr_len"], nd.get("tag"))
+    return out
